@@ -107,7 +107,7 @@ def build(case: t.Dict[str, t.Any]) -> t.Tuple[t.Callable[[], t.Any], t.List[t.D
     parts = []
     for m, libenc in zip(msgs, case["libenc"]):
         if isinstance(libenc, tuple):
-            parts.append(rfc4511.encode(m, rfc4511.Knobs(libenc[1], kinds=("length",))))
+            parts.append(rfc4511.encode(m, rfc4511.Knobs(libenc[1], kinds=("length-wide",))))
         else:
             parts.append(absval.to_lib(m).pack(opts) if libenc else rfc4511.encode(m))
     cand = sorted({m["id"] for m in msgs} | set(ids))
